@@ -8,6 +8,9 @@ mod c02;
 mod c03;
 mod c07;
 mod c08;
+mod c09;
+mod c10;
+mod c11;
 mod c12;
 mod c13;
 mod c14;
@@ -27,6 +30,9 @@ fn build(id: &str, thorough: bool, seed: u64) -> Option<Check> {
         "C16" => c03::check_c16(thorough, seed),
         "C07" => c07::check(thorough, seed),
         "C08" => c08::check(thorough, seed),
+        "C09" => c09::check(thorough, seed),
+        "C10" => c10::check(thorough, seed),
+        "C11" => c11::check(thorough, seed),
         "C12" => c12::check(thorough, seed),
         "C13" => c13::check(thorough, seed),
         "C14" => c14::check(thorough, seed),
